@@ -223,6 +223,9 @@ func main() {
 	spec.MaxDepth = len(W.Events) + 1
 	st := xplore.BFS(run, spec)
 	nest(run, spec, thorough)
+	saved := W
+	concurrent(run, thorough)
+	W = saved
 	run.Set("states", st.States)
 	run.Set("transitions", st.Transitions)
 	run.Set("traces_validated_against_impl", st.Checks)
